@@ -57,6 +57,14 @@ func (g *Gen) genFrozen(n int) error {
 			g.oneHitRemergeCase()
 			continue
 		}
+		if i == 44 && g.dumpfiles {
+			// a big input merged behind small ones that lack the field / the terms: the reader written from
+			// the layout derives the chunk size from the bitmap it finds
+			g.forceBigVariant = 5
+			g.bigMergeCase()
+			g.forceBigVariant = 0
+			continue
+		}
 		if i == 38 && g.dumpfiles {
 			// a doc-value field without any value in the middle chunk, built and merged, both dumped
 			g.sparseDvMergeCase()
